@@ -21,7 +21,10 @@ AliasPairs == {<<s, a \o MRest(s)>> : s \in MKeys, a \in {"min", "mi", "-"}} \cu
               {<<"m/M7", a \o "/" \o b \o "7">> : a \in {"m", "min", "mi", "-"}, b \in {"M", "maj", "ma"}} \cup
               {<<"mM7", a \o b \o "7">> : a \in {"m", "min", "mi", "-"}, b \in {"M", "maj", "ma"}}
 BadBasses == {<<"H">>, <<"c">>, <<"G","x">>, <<"8">>, <<"E","m">>, <<"b">>}
-UnknownSuffixes == {"x", "7sus", "sus9", "M8", "+x", "dm", "77", "5x", "/", "|", "m/", "hendri", "NC", "dom"}
+\* a documented shorthand with white space before or after it is not a documented shorthand
+Whites == {"\n", " ", "\t", "\n\n"}
+UnknownSuffixes == {"x", "7sus", "sus9", "M8", "+x", "dm", "77", "5x", "/", "|", "m/", "hendri", "NC", "dom"} \cup
+                   {s \o w : s \in {"", "m7", "dim7", "M", "7b5", "6/9"}, w \in Whites} \cup {w \o s : s \in {"m7", "M", "sus4"}, w \in Whites}
 BadRootStrings == {<<"H","m">>, <<"c">>, <<"1">>, <<"#","C">>, <<"x","7">>, <<"|","C">>, <<"/","G">>, <<"h","e","n","d","r","i","x">>}
 Cases ==
   {[kind |-> "chord", root |-> r, sh |-> s, spelled |-> s] : r \in N35, s \in DocumentedShorthands} \cup
